@@ -245,7 +245,7 @@ impl OtlpBuilder {
         };
 
         let receive = async move {
-            let processors =
+            let mut processors =
                 FuturesUnordered::<Pin<Box<dyn Future<Output = ()> + Send + 'static>>>::new();
 
             if let Some((transport, receiver)) = process_otlp_logs {
@@ -290,7 +290,10 @@ impl OtlpBuilder {
             // Process batches from each signal independently
             // This ensures one signal becoming unavailable doesn't
             // block the others
-            let _ = processors.into_future().await;
+            //
+            // Each receiver finishes once its senders are dropped and its queue is drained,
+            // so wait for all of them; the first one to finish must not stop the others
+            while processors.next().await.is_some() {}
         };
 
         // Spawn a background thread to process batches
